@@ -130,6 +130,93 @@ fn view(m: &MTx, i: usize, flag: u8, subscript: &[u8], value: u64) -> Option<Vec
     Some(v)
 }
 
+fn ser_out(o: &MO) -> Vec<u8> {
+    let mut b = o.value.to_le_bytes().to_vec();
+    b.extend(crate::scen_txhist::varint(o.script.len() as u64));
+    b.extend_from_slice(&o.script);
+    b
+}
+
+fn wire_outpoint(x: &MI) -> Vec<u8> {
+    let mut b = x.txid.clone();
+    b.reverse();
+    b.extend_from_slice(&x.vout.to_le_bytes());
+    b
+}
+
+/// The specified signature-hash preimage, written from the published algorithms (replay-protected
+/// "BIP143-style" digest for FORKID flags, the original algorithm for legacy flags) over the MODEL transaction.
+/// Independent of every line of the library.
+pub(crate) fn ref_preimage(m: &MTx, i: usize, flag: u8, subscript: &[u8], value: u64) -> Option<Vec<u8>> {
+    let own = m.ins.get(i)?;
+    let zero = vec![0u8; 32];
+    let mut p: Vec<u8> = vec![];
+    if is_forkid(flag) {
+        let hash_prevouts = if !is_acp(flag) { ref_hash("sha256d", &m.ins.iter().flat_map(|x| wire_outpoint(x)).collect::<Vec<u8>>()) } else { zero.clone() };
+        let hash_sequence = if !is_acp(flag) && base(flag) == 1 { ref_hash("sha256d", &m.ins.iter().flat_map(|x| x.seq.to_le_bytes().to_vec()).collect::<Vec<u8>>()) } else { zero.clone() };
+        let hash_outputs = match base(flag) {
+            1 => ref_hash("sha256d", &m.outs.iter().flat_map(|o| ser_out(o)).collect::<Vec<u8>>()),
+            3 => ref_hash("sha256d", &ser_out(m.outs.get(i)?)),
+            _ => zero.clone(),
+        };
+        p.extend_from_slice(&m.version.to_le_bytes());
+        p.extend(hash_prevouts);
+        p.extend(hash_sequence);
+        p.extend(wire_outpoint(own));
+        p.extend(crate::scen_txhist::varint(subscript.len() as u64));
+        p.extend_from_slice(subscript);
+        p.extend_from_slice(&value.to_le_bytes());
+        p.extend_from_slice(&own.seq.to_le_bytes());
+        p.extend(hash_outputs);
+        p.extend_from_slice(&m.locktime.to_le_bytes());
+        p.extend_from_slice(&(flag as u32).to_le_bytes());
+    } else {
+        let code = strip_separators(subscript);
+        let ser_in = |x: &MI, script: &[u8], seq: u32| -> Vec<u8> {
+            let mut b = wire_outpoint(x);
+            b.extend(crate::scen_txhist::varint(script.len() as u64));
+            b.extend_from_slice(script);
+            b.extend_from_slice(&seq.to_le_bytes());
+            b
+        };
+        p.extend_from_slice(&m.version.to_le_bytes());
+        if is_acp(flag) {
+            p.extend(crate::scen_txhist::varint(1));
+            p.extend(ser_in(own, &code, own.seq));
+        } else {
+            p.extend(crate::scen_txhist::varint(m.ins.len() as u64));
+            for (j, x) in m.ins.iter().enumerate() {
+                if j == i {
+                    p.extend(ser_in(x, &code, x.seq));
+                } else {
+                    let seq = if base(flag) == 1 { x.seq } else { 0 };
+                    p.extend(ser_in(x, &[], seq));
+                }
+            }
+        }
+        match base(flag) {
+            1 => {
+                p.extend(crate::scen_txhist::varint(m.outs.len() as u64));
+                for o in &m.outs {
+                    p.extend(ser_out(o));
+                }
+            }
+            3 => {
+                let o = m.outs.get(i)?;
+                p.extend(crate::scen_txhist::varint(i as u64 + 1));
+                for _ in 0..i {
+                    p.extend(ser_out(&MO { value: u64::MAX, script: vec![] }));
+                }
+                p.extend(ser_out(o));
+            }
+            _ => p.extend(crate::scen_txhist::varint(0)),
+        }
+        p.extend_from_slice(&m.locktime.to_le_bytes());
+        p.extend_from_slice(&(flag as u32).to_le_bytes());
+    }
+    Some(p)
+}
+
 /// tags of the view entries that differ between two covered views
 fn view_diff(a: &[u8], b: &[u8]) -> Vec<String> {
     fn parse(v: &[u8]) -> Vec<(String, Vec<u8>)> {
@@ -295,7 +382,15 @@ fn build_utxo(u: &Value) -> Option<Utxo> {
     let m = if family == "twostage" { 2 } else { m };
     // optional ballast in front: <n bytes> OP_DROP, so scripts and subscripts cross the 75/76 push boundary and the
     // 252/253 compact-size boundary (script length is serialised inside both preimage formats)
-    let pad = jusize(u, "pad");
+    let mut pad = jusize(u, "pad");
+    let pad_to = jusize(u, "pad_to");
+    if pad_to > 0 {
+        // choose the ballast so that the finished locking script is exactly pad_to bytes long
+        let base_len: usize = items.iter().map(|i| i.len()).sum::<usize>() + if verify { 1 } else { 0 };
+        // ballast costs payload + 2 (PUSHDATA1 prefix) + 1 (OP_DROP) for payloads of 76..=255 bytes
+        let want = pad_to as i64 - base_len as i64 - 3;
+        pad = if (76..=255).contains(&want) { want as usize } else { 0 };
+    }
     if pad > 0 {
         let mut p = vec![];
         if pad <= 75 {
@@ -323,11 +418,16 @@ fn build_utxo(u: &Value) -> Option<Utxo> {
     let mut first_check_sub_start: usize = 0;
     for (p, it) in items.iter().enumerate() {
         if sep_in_branch && p == branch_at {
-            // OP_1 OP_IF OP_CODESEPARATOR OP_ENDIF : the separator executes inside the taken branch
+            // OP_1 OP_IF OP_CODESEPARATOR [OP_ELSE [OP_NOP]] OP_ENDIF : the separator executes inside the taken branch;
+            // forms 1 and 2 carry an explicit else branch (empty / non-empty)
             lock.extend_from_slice(&[0x51, 0x63, 0xab]);
-            branch_tail = Some(lock.len()); // subscript starts here: OP_ENDIF ...
+            branch_tail = Some(lock.len()); // subscript starts here: [OP_ELSE ..] OP_ENDIF ...
             last_sep_end = lock.len();
-            lock.push(0x68);
+            match jusize(u, "branch_form") {
+                1 => lock.extend_from_slice(&[0x67, 0x68]),
+                2 => lock.extend_from_slice(&[0x67, 0x61, 0x68]),
+                _ => lock.push(0x68),
+            }
         }
         if seps.contains(&p) {
             lock.push(0xab);
@@ -386,8 +486,18 @@ struct InState {
 
 impl SpendNet {
     fn gen_out(rng: &mut Rng) -> Value {
-        let s = match rng.below(3) {
+        let s = match rng.below(6) {
             0 => "51".to_string(),
+            3 => "5163516768".to_string(),   // OP_1 OP_IF OP_1 OP_ELSE OP_ENDIF : explicit, empty else branch
+            4 => "0063675168".to_string(),   // OP_0 OP_IF OP_ELSE OP_1 OP_ENDIF : empty if branch
+            5 => {
+                // OP_RETURN + one push, total length exactly 252 / 253 / 254 (compact-size boundary of the script length)
+                let total = *rng.pick(&[252usize, 253, 254]);
+                let payload = total - 3;
+                let mut v = vec![0x6a, 0x4c, payload as u8];
+                v.extend(rng.bytes(payload));
+                hx(&v)
+            }
             1 => {
                 let mut v = vec![0x76, 0xa9, 0x14];
                 v.extend(rng.bytes(20));
@@ -410,7 +520,7 @@ impl Scenario for SpendNet {
             real: &["bsv::Transaction (add_input/add_output/set_input/set_output/set_version/set_nlocktime, sign, to/from extended CBOR and JSON)", "bsv::Interpreter::{from_transaction, run, state}", "bsv::Script::{from_bytes, from_asm_string}", "bsv::P2PKHAddress::{from_pubkey, get_unlocking_script}", "bsv::SighashSignature, bsv::TxIn extended fields"],
             stub: &["covered-view model: a ~40-line table of which fields each flag commits to (not a byte-level preimage)", "ByzSigner: RFC 6979 textbook signer over the byte-reversed double-SHA256 of the library's own preimage", "locking scripts are assembled byte-wise by the harness (families fixed by the statement)"],
             assumptions: &["value mutations are not generated for legacy-flag signatures: the original algorithm does not commit to the value although the statement lists it", "ship events are applied only when the restored object re-serialises identically and keeps every input's locking script and declared value (fidelity of the formats is C18's subject)", "inputs/outputs are appended, replaced, prepended and inserted; an inserted input shifts the ones behind it together with their signatures and scripts"],
-            required_probes: &["validate_expect_accept", "validate_expect_reject", "signed_before_build_complete", "mutated_covered_field", "mutated_uncovered_field", "family_p2pk", "family_p2pkh", "family_multisig", "family_twostage", "flag_legacy", "flag_forkid", "separator_present", "shipped", "byz_signed", "sig_tampered", "validated_on_shipped_copy"],
+            required_probes: &["validate_expect_accept", "validate_expect_reject", "signed_before_build_complete", "mutated_covered_field", "mutated_uncovered_field", "family_p2pk", "family_p2pkh", "family_multisig", "family_twostage", "flag_legacy", "flag_forkid", "separator_present", "shipped", "byz_signed", "sig_tampered", "validated_on_shipped_copy", "validated_under_stdout_fault", "ref_signed", "lib_signature_checked_against_reference_preimage"],
             quick_runs: 15_000,
             thorough_runs: 1_500_000,
             rlimit_as: 4 << 30,
@@ -432,7 +542,8 @@ impl Scenario for SpendNet {
             let mut txid = rng.bytes(32);
             txid[0] = u as u8;
             utxos.push(json!({"family": family, "m": rng.range(1, n), "keys": keys, "verify": rng.chance(1, 3), "uncompressed": rng.chance(1, 5), "seps": seps,
-                "sep_in_branch": rng.chance(1, 12), "branch_at": rng.below(8), "pad": if rng.chance(1, 4) { *rng.pick(&[1u64, 75, 76, 200, 255, 256, 300]) } else { 0 }, "value": u64s(match rng.below(4) { 0 => 0, 1 => u64::MAX, _ => rng.below(1 << 44) }), "txid": hx(&txid), "vout": rng.below(3)}));
+                "sep_in_branch": rng.chance(1, 12), "branch_at": rng.below(8), "pad": if rng.chance(1, 4) { *rng.pick(&[1u64, 75, 76, 200, 255, 256, 300]) } else { 0 }, "pad_to": if rng.chance(1, 8) { *rng.pick(&[252u64, 253, 254]) } else { 0 },
+                "branch_form": rng.below(3), "value": u64s(match rng.below(4) { 0 => 0, 1 => u64::MAX, _ => rng.below(1 << 44) }), "txid": hx(&txid), "vout": rng.below(3)}));
         }
         let mut events = vec![json!({"op": "setup", "utxos": utxos, "version": *rng.pick(&[1u32, 2, 0, u32::MAX]), "locktime": *rng.pick(&[0u32, 1, 499_999_999, u32::MAX])})];
         let n_events = rng.range(6, 40);
@@ -465,9 +576,10 @@ impl Scenario for SpendNet {
                 let i = rng.below(n_in);
                 let mixed = rng.chance(1, 4);
                 let flag = *rng.pick(&swarm_flags);
+                let signer = if rng.chance(1, 4) { "ref_sign" } else { "sign" };
                 for slot in 0..3 {
                     let f = if mixed { *rng.pick(&swarm_flags) } else { flag };
-                    events.push(json!({"op": "sign", "input": i, "slot": slot, "flag": f}));
+                    events.push(json!({"op": signer, "input": i, "slot": slot, "flag": f}));
                 }
                 if rng.chance(1, 12) {
                     events.push(json!({"op": "byz_sign", "input": i, "slot": rng.below(3), "flag": flag}));
@@ -502,7 +614,8 @@ impl Scenario for SpendNet {
                 if rng.chance(1, 5) {
                     events.push(json!({"op": "ship", "fmt": *rng.pick(&["cbor", "json"])}));
                 }
-                events.push(json!({"op": "validate", "input": i}));
+                let so = if rng.chance(1, 8) { *rng.pick(&["enospc", "epipe", "eagain", "ebadf"]) } else { "" };
+                events.push(json!({"op": "validate", "input": i, "stdout": so}));
                 continue;
             }
             match rng.weighted(&[8, 8, 26, 16, 16, 20, 4, 2]) {
@@ -650,7 +763,7 @@ impl Scenario for SpendNet {
                     m.outs.push(MO { value: val, script: sb });
                     shipped = None;
                 }
-                "sign" | "byz_sign" => {
+                "sign" | "byz_sign" | "ref_sign" => {
                     let i = jusize(ev, "input");
                     if i >= m.ins.len() {
                         ctx.skip();
@@ -693,6 +806,23 @@ impl Scenario for SpendNet {
                             (Ok(sig), Some(vw)) => {
                                 let bytes = sig.to_bytes().unwrap_or_default();
                                 ctx.observe(&bytes);
+                                // the library's signature must be a valid ECDSA signature over the SPECIFIED preimage
+                                if let (Some(rp), Ok(s2)) = (ref_preimage(&m, i, flag_b, &sub_bytes, value), bsv::Signature::from_der(&bytes[..bytes.len().saturating_sub(1)])) {
+                                    ctx.probe("lib_signature_checked_against_reference_preimage");
+                                    let d = ref_hash("sha256d", &rp);
+                                    let pkb = pubkey_bytes(key, true);
+                                    if !rf::ecdsa_verify(&pkb, &d, &s2.r(), &s2.s()) {
+                                        let fl = if is_forkid(flag_b) { "forkid" } else { "legacy" };
+                                        if ctx.tracing() {
+                                            let lp = tx.sighash_preimage(flag, i, &sub, value).unwrap_or_default();
+                                            ctx.trace(|| format!("library preimage   {}", hx(&lp)));
+                                            ctx.trace(|| format!("specified preimage {}", hx(&rp)));
+                                        }
+                                        if ctx.violate("mismatch", format!("lib-signature-not-over-specified-preimage:{} {}", fl, flag_name(flag_b)), format!("Transaction::sign({}) on input {} produced a signature that the textbook verifier rejects over the independently computed {} preimage ({} inputs, {} outputs, subscript {} bytes, own sequence {:#x})", flag_name(flag_b), i, fl, m.ins.len(), m.outs.len(), sub_bytes.len(), m.ins[i].seq)) {
+                                            return;
+                                        }
+                                    }
+                                }
                                 ins[i].sigs.push(SigRec { key, flag: flag_b, bytes, view: vw, byz: false, sub: sub_bytes.clone(), obj: Some(sig), built: (m.ins.len(), m.outs.len()) });
                             }
                             (Err(_), None) => ctx.probe("sign_refused_no_matching_output"),
@@ -704,6 +834,19 @@ impl Scenario for SpendNet {
                                 if ctx.violate("reject", format!("sign-failed:{} {}", ut.family, flag_name(flag_b)), format!("Transaction::sign failed on a signable input: {}", e)) {
                                     return;
                                 }
+                            }
+                        }
+                    } else if op == "ref_sign" {
+                        // honest reference peer: textbook ECDSA over the independently computed specified preimage
+                        if let (Some(rp), Some(vw)) = (ref_preimage(&m, i, flag_b, &sub_bytes, value), vw) {
+                            let d = ref_hash("sha256d", &rp);
+                            let x = hex::decode(KEYS[key]).unwrap();
+                            let h1 = rf::scalar_bytes(&rf::scalar_reduced(&d));
+                            if let Some((r, s)) = rf::ecdsa_sign(&x, &d, &rf::rfc6979_k(&x, &h1, &[], "sha256")) {
+                                let mut bytes = der(&r, &s);
+                                bytes.push(flag_b);
+                                ctx.probe("ref_signed");
+                                ins[i].sigs.push(SigRec { key, flag: flag_b, bytes, view: vw, byz: false, sub: sub_bytes.clone(), obj: None, built: (m.ins.len(), m.outs.len()) });
                             }
                         }
                     } else {
@@ -1262,6 +1405,14 @@ impl Scenario for SpendNet {
                         objs.push(("shipped", s));
                         ctx.probe("validated_on_shipped_copy");
                     }
+                    // the validator's debug trace goes to the process's stdout: a failing stdout must not change a verdict
+                    let sf = crate::faults::StdoutFault::parse(jstr(ev, "stdout"), 64);
+                    if let Some(f) = sf {
+                        if crate::faults::stdout_fault(f) {
+                            ctx.fault(f.name());
+                            ctx.probe("validated_under_stdout_fault");
+                        }
+                    }
                     for (name, t) in objs {
                         let res = guard(|| -> Result<bool, String> {
                             let mut itp = Interpreter::from_transaction(t, i).map_err(|e| e.to_string())?;
@@ -1278,6 +1429,9 @@ impl Scenario for SpendNet {
                                 }
                             }
                         }
+                    }
+                    if sf.is_some() {
+                        crate::faults::stdout_heal();
                     }
                     for (name, got, err) in &verdicts {
                         ctx.observe_str(if *got { "accept" } else { "reject" });
@@ -1297,7 +1451,7 @@ impl Scenario for SpendNet {
                                 cs.dedup();
                                 format!("accepted-invalid:{}", cs.join(" & "))
                             };
-                            if ctx.violate(if expect { "reject" } else { "accept" }, sig, format!("validator ({} object) {} input {} but the model expects {}: {} {}", name, if *got { "accepted" } else { "rejected" }, i, if expect { "accept" } else { "reject" }, why, err)) {
+                            if ctx.violate(if expect { "reject" } else { "accept" }, sig, format!("validator ({} object, stdout {}) {} input {} but the model expects {}: {} {}", name, sf.map(|f| f.name()).unwrap_or("healthy"), if *got { "accepted" } else { "rejected" }, i, if expect { "accept" } else { "reject" }, why, err)) {
                                 return;
                             }
                         }
